@@ -137,22 +137,24 @@ Fixpoint ins_parent (im : nmap ninfo) (m p : N) (l : list (N * N)) : list (N * N
 
 Definition odd_diff (a b : Z) : bool := Z.odd (a - b).
 
+(** one iteration of the loop over the parents in updateDepth; [rec] = parent->updateDepth() *)
+Definition depthStep (rec : nmap Z * N -> N -> nmap Z * N) (n : N) (acc : nmap Z * N * bool) (mp : N * N) : nmap Z * N * bool :=
+  let '(dm, err, upd) := acc in
+  let p := snd mp in
+  let '(dm1, err1) := if depth_of dm p =? INT_MAX then rec (dm, err) p else (dm, err) in
+  let dp := depth_of dm1 p in
+  let dn := depth_of dm1 n in
+  (* assert(parent->depth >= 0); assert(parent->depth < INT_MAX);
+     if (depth != INT_MAX) assert((depth - parent->depth) % 2 != 0); *)
+  let bad := (dp <? 0) || (INT_MAX <=? dp) || (negb (dn =? INT_MAX) && negb (odd_diff dn dp)) in
+  let err2 := if bad then N.max err1 ERR_ASSERT else err1 in
+  if dn >? dp + 1 then (nset n (dp + 1) dm1, err2, true) else (dm1, err2, upd).
+
 Fixpoint updateDepth (fuel : nat) (chm parm : nmap (list (N * N))) (st : nmap Z * N) (n : N) : nmap Z * N :=
   match fuel with
   | O => (fst st, N.max (snd st) ERR_FUEL)
   | S f =>
-      let step (acc : nmap Z * N * bool) (mp : N * N) : nmap Z * N * bool :=
-        let '(dm, err, upd) := acc in
-        let p := snd mp in
-        let '(dm1, err1) := if depth_of dm p =? INT_MAX then updateDepth f chm parm (dm, err) p else (dm, err) in
-        let dp := depth_of dm1 p in
-        let dn := depth_of dm1 n in
-        (* assert(parent->depth >= 0); assert(parent->depth < INT_MAX);
-           if (depth != INT_MAX) assert((depth - parent->depth) % 2 != 0); *)
-        let bad := (dp <? 0) || (INT_MAX <=? dp) || (negb (dn =? INT_MAX) && negb (odd_diff dn dp)) in
-        let err2 := if bad then N.max err1 ERR_ASSERT else err1 in
-        if dn >? dp + 1 then (nset n (dp + 1) dm1, err2, true) else (dm1, err2, upd) in
-      let '(dm2, err2, upd) := fold_left step (links_of parm n) (fst st, snd st, false) in
+      let '(dm2, err2, upd) := fold_left (depthStep (updateDepth f chm parm) n) (links_of parm n) (fst st, snd st, false) in
       if upd then fold_left (fun s mc => updateDepth f chm parm s (snd mc)) (links_of chm n) (dm2, err2)
       else (dm2, err2)
   end.
